@@ -103,6 +103,7 @@ type World struct {
 	KeepSnaps     bool
 	Dead          bool   // a panic escaped BeginBlock/EndBlock/Commit
 	seq           int    // running number of this world in the process (trace)
+	lastSlashed   *Oper  // target of the last generated slash
 	ConsensusHalt string // CometBFT-side validation refused a validator update list
 	MonitorPanics []string
 	// IgnoreValSetErr: keep driving the application after the consensus-side model refused an update list
